@@ -4,15 +4,16 @@
 // what the code says now; theorems in coq/Properties relate them to the hand-written model.
 //
 // Accepted subset (anything else aborts with a non-zero exit and a message naming the construct):
-//   b := &cryptobyte.Builder{}
-//   b.AddUint8|16|24|32|64(<int literal> | <param> | <param>.<field> | uintN(<that>))
-//   b.AddBytes(<param> | <param>.<field> | <that>[:])
-//   b.AddUint8|16|24|32LengthPrefixed(func(b *cryptobyte.Builder) { <statements> })
-//   if [!]<bool param or field> { <statements> } else { <statements> }
-//   b := cryptobyte.NewBuilder(<param>);  if … { … } without else;
-//   for _, f := range <field> { b.AddBytes(f[:]) }
-//   helper(b, ...)   — an opaque builder transformer: becomes a parameter g_<helper> : builder -> builder
-//   return <expr>   — recorded textually (the theorem states which wrapper is expected)
+//
+//	b := &cryptobyte.Builder{}
+//	b.AddUint8|16|24|32|64(<int literal> | <param> | <param>.<field> | uintN(<that>))
+//	b.AddBytes(<param> | <param>.<field> | <that>[:])
+//	b.AddUint8|16|24|32LengthPrefixed(func(b *cryptobyte.Builder) { <statements> })
+//	if [!]<bool param or field> { <statements> } else { <statements> }
+//	b := cryptobyte.NewBuilder(<param>);  if … { … } without else;
+//	for _, f := range <field> { b.AddBytes(f[:]) }
+//	helper(b, ...)   — an opaque builder transformer: becomes a parameter g_<helper> : builder -> builder
+//	return <expr>   — recorded textually (the theorem states which wrapper is expected)
 //
 // usage: translate <out.v> <file.go>:<func>:<gallina name> ...
 package main
